@@ -15,13 +15,13 @@ Theorem C04_tokens_are_erasure : forall mb f s,
   lex mb f s = match lex_full mb f s with Ok tr => Ok (erase tr) | Err e => Err e end.
 Proof. reflexivity. Qed.
 
-(* 1+2. For each of the 8 flag settings: the leaves, the skipped runs and the bracket texts, in order, concatenate to
+(* 1+2. For each of the 8 flag settings, base lexer and MyBatis plug-in lexer alike: the leaves, the skipped runs and the bracket texts, in order, concatenate to
    the (pre-processed) input; every skipped run is a blank, a line break, a line comment or a block comment; every
    group was opened and closed by the bracket characters of its own kind. *)
-Theorem C04_partition : forall f s tr, (f < 8)%nat ->
-  lex_full false f s = Ok tr ->
+Theorem C04_partition : forall mb f s tr, (f < 8)%nat ->
+  lex_full mb f s = Ok tr ->
   flatten tr = preproc s /\ forallb node_okb tr = true.
-Proof. intros f s tr Hf H. exact (impl_lex_full_ok (table false f) (preproc s) tr (adv_check_cfg false f Hf) (ops_check_cfg f Hf) H). Qed.
+Proof. intros mb f s tr Hf H. exact (impl_lex_full_ok (table mb f) (preproc s) tr (adv_check_cfg mb f Hf) (ops_check_cfg_mb mb f Hf) H). Qed.
 
 (* 3. With every retention option switched on (flags = 0) nothing is skipped, and concatenating the token texts
    (AMTBase.source, groups rendered with their own brackets) reproduces the input exactly. *)
@@ -47,8 +47,8 @@ Proof.
   exact (conj A (conj B C)).
 Qed.
 
-(* 5. lossless accounting also for the MyBatis plug-in tables *)
-Theorem C04_lossless_all_configs : forall mb f s tr, (f < 8)%nat ->
+(* 5. (weaker, but from the position check alone) every consumed character is accounted for in all configurations *)
+Theorem C04_lossless_prefix_partial : forall mb f s tr, (f < 8)%nat ->
   lex_full mb f s = Ok tr -> exists w, flatten tr ++ w = preproc s.
 Proof. intros mb f s tr Hf H. exact (impl_lex_full_lossless (table mb f) (preproc s) tr (adv_check_cfg mb f Hf) H). Qed.
 
@@ -62,5 +62,5 @@ Print Assumptions C04_tokens_are_erasure.
 Print Assumptions C04_partition.
 Print Assumptions C04_retain_all.
 Print Assumptions C04_no_lost_char.
-Print Assumptions C04_lossless_all_configs.
+Print Assumptions C04_lossless_prefix_partial.
 Print Assumptions C04_example.
